@@ -79,7 +79,8 @@ class JitModel:
                 err = "Err" if (isinstance(r, tuple) and r and r[0] == "struct" and r[2] == "Err") else err
             pcv = st.env.get((owner, self.pcid))
             out.append({"conds": [self.canon(c) for c in st.conds], "items": items, "pc": self.canon(pcv) if pcv is not None else None,
-                        "unrec": [u for u in st.unrec if "field write on symbolic" not in u], "err": err})
+                        "unrec": [u for u in st.unrec if "field write on symbolic" not in u], "err": err,
+                        "lookups": [self.canon(e) for e in st.effects if e[0] == "call" and isinstance(e[1], str) and e[1].endswith("HashMap<K, V, S, A>::get")]})
         return out
 
     def initial_machine(self):
